@@ -15,6 +15,9 @@ the harness registers in the problem's environment factory.
    solvability and the maximal oversubscription gain (Corr_C31.ocode / icode); the same is computed with the model of
    the simulator (short-circuit evaluation) to recognise inherited simulator deviations, and with the real simulator
    and validator in Python;
+ * the IF families: hand-written regression corpus, IFProblem (random), dependency chains (chain_corpus / gen_chain),
+   twin applications (twin_corpus / gen_twin: ONE function applied 2-3 times in one action to different fluent
+   arguments, solution only after the values were learnt), C01-grammar problems with the ifuns knob;
  * hypotheses of ifplanner_complete, per instance: learnt values are true values (consistency), knowledge grows on a
    failed validation (else the planner raises), and relaxation: every valid plan of the original problem up to the
    tier's length lifts to a valid plan of the compiled problem, for the knowledge of every turn (real validator) and,
@@ -511,9 +514,15 @@ TWIN_COND = OrderedDict([
     ("diff", (2, lambda em, t: [em.Equals(em.Minus(t[0], t[1]), 2)], lambda v: v[0] - v[1] == 2)),
     ("split2", (2, lambda em, t: [em.LE(t[0], 1), em.GE(t[1], 2)], lambda v: v[0] <= 1 and v[1] >= 2)),
     ("sum3", (3, lambda em, t: [em.LT(em.Plus(t[0], t[1]), t[2])], lambda v: v[0] + v[1] < v[2])),
-    ("chain3", (3, lambda em, t: [em.And(em.LT(t[0], t[1]), em.LT(t[1], t[2]))], lambda v: v[0] < v[1] < v[2])),
-    ("split3", (3, lambda em, t: [em.LT(t[0], t[1]), em.Not(em.Equals(t[1], t[2]))], lambda v: v[0] < v[1] and v[1] != v[2])),
+    ("dist3", (3, lambda em, t: [em.GT(em.Minus(t[0], t[1]), t[2])], lambda v: v[0] - v[1] > v[2])),
+    ("split3", (3, lambda em, t: [em.LE(t[0], 1), em.GE(t[1], 2), em.Not(em.Equals(t[2], 0))],
+                lambda v: v[0] <= 1 and v[1] >= 2 and v[2] != 0)),
 ])
+# conjuncts that SHARE an application (`fr(a) < fr(b)`, `fr(b) != fr(c)` as two preconditions, or one `and`, which the
+# compiler splits): open finding C31-ifplanner-shared-application-across-conditions (shape tag
+# `two-conditions-share-application`), see notes/C31.md "Seeded change C31-5"
+TWIN_COND["chain3"] = (3, lambda em, t: [em.And(em.LT(t[0], t[1]), em.LT(t[1], t[2]))], lambda v: v[0] < v[1] < v[2])
+TWIN_COND["share3"] = (3, lambda em, t: [em.LT(t[0], t[1]), em.Not(em.Equals(t[1], t[2]))], lambda v: v[0] < v[1] and v[1] != v[2])
 # effect values over the applications: name -> (k, Boolean value?, value(em, t), the same on the values)
 TWIN_VAL = OrderedDict([
     ("minus", (2, False, lambda em, t: em.Minus(t[0], t[1]), lambda v: v[0] - v[1])),
@@ -615,7 +624,8 @@ def twin_corpus():
         ("pre", "lt", [(0, 0), (1, 0)], None),                       # fr(u) < fr(v)
         ("pre", "split2", [(0, 0), (1, 0)], None),                   # fr(u) <= 1, fr(v) >= 2 (two preconditions)
         ("pre", "diff", [(1, 0), (0, 1)], None),                     # fr(v) - fr(u + 1) == 2
-        ("pre", "chain3", [(0, 1), (0, 0), (1, 0)], None),           # fr(u + 1) < fr(u) < fr(v)
+        ("pre", "sum3", [(0, 1), (0, 0), (1, 0)], None),             # fr(u + 1) + fr(u) < fr(v)
+        ("pre", "chain3", [(0, 1), (0, 0), (1, 0)], None),           # fr(u + 1) < fr(u) and fr(u) < fr(v): open finding
         ("effcond", "lt", [(0, 0), (1, 0)], None),
         ("effval", "minus", [(0, 0), (1, 0)], -1),                   # out := fr(u) - fr(v), goal out == -1
         ("effval", "blt", [(0, 0), (1, 0)], None),                   # g := fr(u) < fr(v)
@@ -624,7 +634,9 @@ def twin_corpus():
     out = []
     for site, form, args, target in specs:
         label = "twin-%s-%s-%s" % (site, form, "".join("uvw"[d] + ("%+d" % o if o else "") for d, o in args))
-        out.append(twin_problem(label, site, form, args, tb, 2, (0, 2), mv, target=target))
+        hp = twin_problem(label, site, form, args, tb, 2, (0, 2), mv, target=target)
+        hp.twin = {"site": site, "form": form, "apps": len(args)}
+        out.append(hp)
     return out
 
 
@@ -1131,6 +1143,18 @@ def shape_tags(problem):
     tags = set()
     changing = InterpretedFunctionsRemover()._find_changing_fluents(problem)
     for a in problem.actions:
+        elems = []                   # the compiler's condition elements: conjuncts of the preconditions
+        todo = list(a.preconditions)
+        while todo:
+            c = todo.pop()
+            if c.is_and():
+                todo.extend(c.args)
+            else:
+                elems.append(set(x for x in subterms(c) if x.is_interpreted_function_exp()))
+        for i, ai in enumerate(elems):
+            for aj in elems[i + 1:]:
+                if (ai & aj) and (len(ai) >= 2 or len(aj) >= 2):
+                    tags.add("two-conditions-share-application")
         for c in a.preconditions:
             parts = list(c.args) if c.is_and() else [c]
             for part in parts:
@@ -1188,6 +1212,8 @@ def run_ifplanner(ctx, gens, out):
         apps = problem_ifun_apps(p)
         for w in set(w for w, _ in apps):
             stats["if_problems_with_ifun_in_" + w] += 1
+        if getattr(gen, "twin", None):
+            stats["twin_%s_%d_applications" % (gen.twin["site"], gen.twin["apps"])] += 1
         with IFRecorder() as recd:
             res, exc, calls = solve_with(p, IFPLAN)
         out["npi"] += 1
@@ -1383,6 +1409,10 @@ def run(ctx):
     gens = list(if_corpus()) + list(chain_corpus())
     for i in range(12 if ctx.quick else 120):
         gens.append(gen_chain(rng))
+    gens += twin_corpus()
+    rng_twin = __import__("random").Random("C31-twin:%d" % ctx.seed)    # own stream: the other families keep their draws
+    for i in range(14 if ctx.quick else 150):
+        gens.append(gen_twin(rng_twin))
     for i in range(n_if):
         gens.append(IFProblem(rng, cond_effects=rng.random() < 0.6, nested=rng.random() < 0.4))
     for i in range(n_c01if):
